@@ -152,3 +152,72 @@ def returns_under(body, root_is, names, state, extra_assumes=()):
             if s not in out:
                 out.append(s)
     return out
+
+
+def _field_assume(field, state):
+    """assumption on `<anything>.field` (an Option-typed field identified by its name at the end of the chain)"""
+    def m(x):
+        r, n = chain(x)
+        return (bool(n) and n[-1] == field) or (not n and r == ("param", field))
+    return Assume(m, state)
+
+
+def decide(body, field_states, max_paths=4000):
+    """Outcomes of a loop-free function under assumptions {option field name: 'None' | 'Some'}:
+    list of dict(value=simplified return term, true=[tests that held], false=[tests that failed]) -- one per feasible path.
+    Tests whose outcome follows from the assumptions are resolved (only the feasible edge is explored)."""
+    assumes = [_field_assume(k, v) for k, v in field_states.items()]
+    init = {}
+    for bb in body.switches:
+        si = body.switch_info(bb)
+        if si["enum"] != OPT:
+            continue
+        for alt in phi_alts(si["subject"]):
+            r, n = chain(alt)
+            if n and n[-1] in field_states and r[0] == "param":
+                init[("o",) + tuple(n)] = field_states[n[-1]]
+            elif not n and r[0] == "param" and r[1] in field_states:
+                init[("o",)] = field_states[r[1]]
+
+    def root_is(r):
+        return "o" if isinstance(r, tuple) and r[0] == "param" else False
+
+    seen_tests = {}
+
+    def hook(b, bb, si):
+        on = b.switches[bb]["on"]
+        pl = on.get("move") or on.get("copy")
+        if pl is None or pl.get("ty") != "bool":
+            return None
+        subj_t = si["subject"]
+        if si.get("path") and not pl["proj"]:
+            # the value tested on *this* path (a local may hold `false` on one path and a comparison on another)
+            pv = paths.value_on_path(b, si["path"], pl["l"])
+            if pv is not None:
+                subj_t = pv
+        subj = simplify(b, subj_t, assumes)
+        t, fl = si["edges"].get(True), si["edges"].get(False)
+        if subj[0] == "const" and subj[2] in (0, 1):
+            tgt = t if subj[2] == 1 else fl
+            return (("k", bb), {bool(subj[2]): tgt}) if tgt is not None else None
+        if t is None or fl is None:
+            return None
+        seen_tests[show(subj)] = subj
+        return (("t", show(subj)), {True: t, False: fl})
+
+    out = []
+    for lf in paths.explore(body, 0, root_is, lambda b, x: False, init_constraints=init, switch_hook=hook, max_paths=max_paths):
+        if lf["kind"] == "limit":
+            return None
+        if lf["kind"] != "return":
+            continue
+        v = paths.value_on_path(body, lf["path"], 0)
+        vals = []
+        for a in (phi_alts(v) if v is not None else []):
+            s = simplify(body, a, assumes)
+            if s not in vals:
+                vals.append(s)
+        tr = [k[1] for k, lab in lf["cons"].items() if isinstance(k, tuple) and k and k[0] == "t" and lab is True]
+        fa = [k[1] for k, lab in lf["cons"].items() if isinstance(k, tuple) and k and k[0] == "t" and lab is False]
+        out.append({"values": vals, "true": [seen_tests.get(x, x) for x in tr], "false": [seen_tests.get(x, x) for x in fa], "path": lf["path"]})
+    return out
